@@ -1314,10 +1314,21 @@ def x_text(rng, s, opts):
     if opts["split"] and len(s) >= 2:
         # character data interrupted by a comment / PI / CDATA boundary (class J44)
         cut = rng.randrange(1, len(s))
-        a, b = x_text(rng, s[:cut], dict(opts, split=False, cdata=False)), x_text(rng, s[cut:], dict(opts, split=False, cdata=False))
-        mid = rng.choice(["<!--c-->", "<?p d?>", "<!-- -->"])
-        if a.strip(" \t\r\n") == "" or b.strip(" \t\r\n") == "":
-            opts["split_ws"] = True       # one part is literal white space only: pugixml drops it (class J44w)
+
+        def part(x, as_cdata):
+            # (rendering, is a CDATA section); a CDATA section cannot hold "]]>" and a raw CR in it would be normalised
+            # (a white-space-only CDATA section is kept by pugixml but dropped by the model's px_filter, which does not
+            #  tell CDATA from plain character data: not generated here until the model distinguishes them)
+            if as_cdata and "]]>" not in x and "\r" not in x and x.strip(" \t\r\n") != "":
+                return "<![CDATA[" + x + "]]>", True
+            return x_text(rng, x, dict(opts, split=False, cdata=False)), False
+        # the character data continues behind a comment / PI, or in / behind a CDATA section (seeded change S28: a GetText
+        # that joins only plain text nodes)
+        mode = rng.choice(["misc", "misc", "cd_b", "cd_a", "cd_both", "misc_cd_b", "cd_a_misc"])
+        (a, ca), (b, cb) = part(s[:cut], mode in ("cd_a", "cd_both", "cd_a_misc")), part(s[cut:], mode in ("cd_b", "cd_both", "misc_cd_b"))
+        mid = rng.choice(["<!--c-->", "<?p d?>", "<!-- -->"]) if (mode in ("misc", "misc_cd_b", "cd_a_misc") or not (ca or cb)) else ""
+        if (not ca and a.strip(" \t\r\n") == "") or (not cb and b.strip(" \t\r\n") == ""):
+            opts["split_ws"] = True       # a plain-text part is literal white space only: pugixml drops it (class J44w)
         return a + mid + b
     return t
 
